@@ -137,6 +137,34 @@ func (sqlTx *SQLTx) getWithPrefix(ctx context.Context, prefix, neq []byte) (key 
 	return sqlTx.tx.GetWithPrefix(ctx, prefix, neq)
 }
 
+// existsLiveKeyWithPrefix reports whether any non-deleted, non-expired entry exists under prefix.
+// Unlike getWithPrefix it does not stop at the first key: deleted entries are skipped. The reads are
+// recorded in the MVCC read-set by the key reader, so a concurrent insertion under the prefix is
+// detected at commit time.
+func (sqlTx *SQLTx) existsLiveKeyWithPrefix(ctx context.Context, prefix []byte) (bool, error) {
+	r, err := sqlTx.newKeyReader(store.KeyReaderSpec{
+		Prefix:  prefix,
+		Filters: []store.FilterFn{store.IgnoreExpired, store.IgnoreDeleted},
+	})
+	if errors.Is(err, store.ErrIndexNotFound) {
+		return false, nil
+	}
+	if err != nil {
+		return false, err
+	}
+	defer r.Close()
+
+	_, _, err = r.Read(ctx)
+	if errors.Is(err, store.ErrNoMoreEntries) {
+		return false, nil
+	}
+	if err != nil {
+		return false, err
+	}
+
+	return true, nil
+}
+
 func (sqlTx *SQLTx) Savepoint(name string) {
 	if sqlTx.savepoints == nil {
 		sqlTx.savepoints = make(map[string]*savepointState)
